@@ -98,7 +98,7 @@ fn main() {
         }
         "typevar" => {
             let mut out = engine::RunOut::new();
-            typevar::run_typevar(args.u64("seed", 0), args.u64("events", 100_000), &mut out);
+            if args.u64("layouts", 0) > 0 { typevar::run_layouts(args.u64("seed", 0), args.u64("layouts", 0), &mut out); } else { typevar::run_typevar(args.u64("seed", 0), args.u64("events", 100_000), &mut out); }
             emit(&args, stats_json(&out).set("cmd", J::s("typevar")));
         }
         "bigcap" => {
@@ -112,7 +112,7 @@ fn main() {
             let seed = args.u64("seed", 0);
             match args.cmd.as_str() {
                 "churn" => scale::run_churn(seed, args.u64("ops", 1_000_000), &mut out),
-                "hashscale" => scale::run_hashscale(seed, args.u64("rounds", 2000), &mut out),
+                "hashscale" => { scale::run_hashscale(seed, args.u64("rounds", 2000), &mut out); if args.u64("shard", 0) == 0 { scale::run_hashscale_giant(args.u64("giant", 1_300_000) as usize, &mut out); } }
                 "interleave" => scale::run_interleave(seed, args.u64("events", 100_000), &mut out),
                 _ => scale::run_realheap(seed, args.u64("events", 100_000), &mut out),
             }
